@@ -46,9 +46,8 @@ class C07Episode(Episode):
             ws.append(ent)
             self.world.mix[wc.get('marker', wc['name'])] = wc.get('mix')
         path = os.path.join(d, 'circus.ini')
-        with open(path, 'w') as f:
-            f.write(ini.render(circus={'check_delay': self.cfg.get(
-                'check_delay', 1.0)}, watchers=ws, sockets=socks))
+        self.ini_state = {'path': path, 'ws': ws, 'socks': socks}
+        self.write_c07_ini()
         a = self.world.build_from_ini(path)
         self.socks = {}
         for sc in self.cfg['sockets']:
@@ -66,6 +65,42 @@ class C07Episode(Episode):
                     return _o(*a_, **kw)
                 setattr(sk, meth, wrapped)
         self.finish_setup()
+
+    def write_c07_ini(self):
+        from .. import ini
+        st = self.ini_state
+        with open(st['path'], 'w') as f:
+            f.write(ini.render(circus={'check_delay': self.cfg.get(
+                'check_delay', 1.0)}, watchers=st['ws'],
+                sockets=st['socks']))
+
+    def op_c07edit(self, i, op):
+        """the file is edited: a watcher's section changes (reloadconfig
+        re-creates it) or a new use_sockets watcher appears; the sockets
+        stay as they are"""
+        st = getattr(self, 'ini_state', None)
+        if st is None or self.world.daemon_gone():
+            return
+        ws = st['ws']
+        if op['kind'] == 'change':
+            ent = ws[op['w'] % len(ws)]
+            ent['graceful_timeout'] = ent['graceful_timeout'] + 1
+        else:
+            src = self.cfg['watchers'][op['w'] % len(self.cfg['watchers'])]
+            name = 'extra%d' % i
+            marker = 'mx%d' % i
+            wc = {'name': name, 'marker': marker, 'mix': src.get('mix'),
+                  'cmd': src['cmd'].replace('--marker=%s' % src['marker'],
+                                            '--marker=%s' % marker),
+                  'opts': dict(src['opts'], use_sockets=True)}
+            wc['opts'].pop('stdin_socket', None)
+            self.spec[marker] = wc
+            self.world.mix[marker] = wc.get('mix')
+            ws.append({'name': name, 'cmd': wc['cmd'], 'numprocesses':
+                       wc['opts']['numprocesses'], 'graceful_timeout':
+                       wc['opts']['graceful_timeout'], 'use_sockets': True})
+        self.fired['ini_edit:' + op['kind']] += 1
+        self.write_c07_ini()
 
     def finish_setup(self):
         self.world.kernel.on_spawn = self.on_spawn
@@ -292,7 +327,9 @@ class C07(Prop):
             'without use_sockets whose cmd refers to the sockets in both '
             'reference syntaxes and any letter case; history of worker '
             'deaths, restart, reload (all modes), incr / decr, kill over '
-            'several worker generations. at every simulated process creation '
+            'several worker generations; a fifth of the daemons is built '
+            'from a configuration file and reloads it, unchanged or with a '
+            'changed / added watcher section. at every simulated process creation '
             'the descriptor table the child would have after exec (computed '
             'from the daemon\'s real table: close_fds / inheritable flags) is '
             'checked against the socket inodes recorded at start-up; at '
@@ -373,12 +410,20 @@ class C07(Prop):
                         wc['opts']['stdin_socket'].lower()
             reqs = self.REQS + ['reloadconfig', 'reloadconfig']
         ops = gen.gen_history(rng, cfg, n, reqs, None, quiet_p=0.6)
+        out = []
         for op in ops:
             if op['op'] == 'req' and op['cmd'] == 'reloadconfig':
                 op['w'] = None
                 op['props'] = {}
                 op['waiting'] = True
-        return {'cfg': cfg, 'ops': ops}
+                if rng.random() < 0.5:
+                    # the watcher sections changed meanwhile (never the
+                    # sockets): a re-created or new watcher's first workers
+                    # are a generation like any other
+                    out.append({'op': 'c07edit', 'w': rng.randrange(8),
+                                'kind': rng.choice(['change', 'add'])})
+            out.append(op)
+        return {'cfg': cfg, 'ops': out}
 
     def run(self, case):
         ep = C07Episode(case)
